@@ -158,3 +158,24 @@ Proof. reflexivity. Qed.
 
 Lemma incoming_needs_wellformed_card self A pk : incoming self (Some A) (Card pk false) = None /\ incoming self (Some A) NoCard = None.
 Proof. split; reflexivity. Qed.
+
+(* ---------- the outgoing contact request ---------- *)
+
+(* the own contact card is written, and the request marked as sent, only to a peer that proved in
+   THIS session that it holds the private key of the account the user asked for *)
+Theorem outgoing_only_to_proven_key A a B Y G w m :
+  outgoing_run true A a B Y G = (w, m) -> w = true \/ m = true ->
+  Y <> LowOrder /\ G = AccF (dh a Y) (dh A (Pt B)) nonce_accept B (dh a Y) /\ mentions a (dh a Y).
+Proof.
+  unfold outgoing_run, outgoing. intros H Hw.
+  destruct (requester true A a B Y G) as [ok sent] eqn:E. cbn [fst] in H.
+  assert (ok = true) by (injection H as <- <-; destruct Hw; assumption).
+  subst ok. exact (requester_auth A a B Y G sent E).
+Qed.
+
+Lemma outgoing_honest A a B b : outgoing (fst (honest_run true A a B B b)) = (true, true).
+Proof. rewrite honest_completes. reflexivity. Qed.
+
+Lemma outgoing_nothing_on_failure A a B Y G :
+  fst (requester true A a B Y G) = false -> outgoing_run true A a B Y G = (false, false).
+Proof. unfold outgoing_run. intros ->. reflexivity. Qed.
